@@ -1345,6 +1345,7 @@ class Kconfig(object):
         # We cache symbols with default values and set them additionally.
         # SYMBOL: VAL_FROM_SDKCONFIG
         symbols_with_default_values: Dict[Symbol, str] = dict()
+        promptless_with_default_values: List[Symbol] = []
         choices_with_default_values: Set[Choice] = set()
 
         # CHOICE: (SYMBOL: VAL)*
@@ -1606,9 +1607,10 @@ class Kconfig(object):
                     if is_main_sdkconfig:
                         sym._sdkconfig_value = val
                         sym._loaded_as_default = True
-                    if is_main_sdkconfig and sym.str_value != sym._sdkconfig_value:
-                        if sym.name not in self.promptless_no_warn:
-                            self.report.add_record(DefaultValuesArea, sym_or_choice=sym, promptless=True)
+                    if is_main_sdkconfig:
+                        # Compared once the whole file has been applied (see below): the value of a promptless
+                        # symbol usually derives from options that may be assigned further down in the file
+                        promptless_with_default_values.append(sym)
 
                 value_is_default = False
 
@@ -1687,6 +1689,10 @@ class Kconfig(object):
 
             for choice in choices_with_default_values:
                 choice.resolve_defaults()
+
+            for sym in promptless_with_default_values:
+                if sym.str_value != sym._sdkconfig_value and sym.name not in self.promptless_no_warn:
+                    self.report.add_record(DefaultValuesArea, sym_or_choice=sym, promptless=True)
 
             # Invalidate all cached values as we edited the configuration
             for sym in self.unique_defined_syms:
